@@ -22,28 +22,34 @@ EXTENDS Naturals, Integers, Sequences, FiniteSets, TLC
 CONSTANTS MaxLen,          \* bound on the length of enumerated histories
           Alphabet         \* which calls the enumeration may use (set of strings)
 
-VARIABLES mat, lu, base, hist
-vars == <<mat, lu, base, hist>>
+VARIABLES mat, lu, base, hist,
+          ses              \* the computational routines used directly (EXAMPLE/pdrepeat.c): what p?gstrf_init left with the caller
+vars == <<mat, lu, base, hist, ses>>
 
 NoMat == [present |-> FALSE, stype |-> "NC", sing |-> FALSE, ver |-> 0, eq |-> 0]
-NoLU  == [ver |-> 0, eq |-> 0, mem |-> "none", ok |-> FALSE, sym |-> FALSE]
+NoLU  == [ver |-> 0, eq |-> 0, mem |-> "none", ok |-> FALSE, sym |-> FALSE, ses |-> FALSE]
+\* sym: the options structure owns etree/colcnt_h/part_super_h (allocated by p?gstrf_init(refact = NO), released by pxgstrf_finalize);
+\* ac: the permuted view AC exists; armed: p?gstrf_init has been called and p?gstrf not yet (refact/usepr/lw: how)
+NoSes == [sym |-> FALSE, ac |-> FALSE, armed |-> FALSE, refact |-> FALSE, usepr |-> FALSE, lw |-> "sys"]
 Facts  == {"DOFACT", "EQUILIBRATE", "FACTORED"}
 Transs == {"N", "T", "C"}
 Mems   == {"sys", "user"}
 
-Init == mat = NoMat /\ lu = NoLU /\ base = 0 /\ hist = <<>>
+Init == mat = NoMat /\ lu = NoLU /\ base = 0 /\ hist = <<>> /\ ses = NoSes
 
 Log(c) == hist' = Append(hist, c)
 
 (* ---- harness actions ---- *)
 Mat(stype, sing) ==
+    /\ ses = NoSes                                         \* a caller closes the session before dropping the matrix
+    /\ UNCHANGED ses
     /\ mat' = [present |-> TRUE, stype |-> stype, sing |-> sing, ver |-> 1, eq |-> 0]
     /\ lu' = NoLU
     /\ Log([call |-> "mat", stype |-> stype, sing |-> sing])
 Vals ==
     /\ mat.present
     /\ mat' = [mat EXCEPT !.ver = @ + 1, !.eq = 0]      \* fresh, unscaled values on the same pattern
-    /\ UNCHANGED <<lu, base>>
+    /\ UNCHANGED <<lu, base, ses>>
     /\ Log([call |-> "vals"])
 
 (* ---- simple driver ---- *)
@@ -53,8 +59,8 @@ Gssv ==
     /\ mat.present
     /\ mat' = [mat EXCEPT !.eq = 0]
     \* the simple driver keeps etree/colcnt/part to itself: nothing a later refactorization could reuse
-    /\ lu' = [ver |-> mat.ver, eq |-> 0, mem |-> "sys", ok |-> ~mat.sing, sym |-> FALSE]
-    /\ UNCHANGED base
+    /\ lu' = [ver |-> mat.ver, eq |-> 0, mem |-> "sys", ok |-> ~mat.sing, sym |-> FALSE, ses |-> FALSE]
+    /\ UNCHANGED <<base, ses>>
     /\ Log([call |-> "gssv"])
 
 (* ---- expert driver ---- *)
@@ -71,16 +77,65 @@ Gssvx(fact, refact, usepr, trans, lw) ==
        ELSE IF fact = "FACTORED" THEN UNCHANGED <<mat, lu>>
        ELSE \E e \in (IF fact = "EQUILIBRATE" THEN 0..3 ELSE {0}) :
                /\ mat' = [mat EXCEPT !.eq = e]
-               /\ lu' = [ver |-> mat.ver, eq |-> e, mem |-> lw, ok |-> ~mat.sing, sym |-> TRUE]
-    /\ UNCHANGED base
+               /\ lu' = [ver |-> mat.ver, eq |-> e, mem |-> lw, ok |-> ~mat.sing, sym |-> TRUE, ses |-> FALSE]
+    /\ UNCHANGED <<base, ses>>
     /\ Log([call |-> "gssvx", fact |-> fact, refact |-> refact, usepr |-> usepr, trans |-> trans, lw |-> lw])
 Destroy ==
     /\ lu.mem # "none"
-    /\ lu' = NoLU /\ UNCHANGED <<mat, base>>
+    /\ lu' = NoLU /\ UNCHANGED <<mat, base, ses>>
     /\ Log([call |-> "destroy"])
 
+(* ---- the computational routines, called as EXAMPLE/pdrepeat.c, pdspmd.c, pdlinsolx*.c do ---- *)
+\* p?gstrf_init: fills the options structure, builds AC = A*Pc as a view; refact = NO also allocates etree/colcnt_h/part_super_h and
+\* composes perm_c with a postorder (so factors computed for the old perm_c must be gone); refact = YES reuses all of that and needs the
+\* factors of an earlier p?gstrf of this session in the same memory mode.  Only column-wise storage.
+SInit(rf, up, lw) ==
+    /\ mat.present /\ mat.stype = "NC" /\ ~ses.ac
+    /\ IF rf THEN ses.sym /\ lu.ses /\ lu.mem = lw /\ (up => lu.ok)
+             ELSE ~ses.sym /\ ~up /\ lu.mem = "none"
+    /\ mat' = [mat EXCEPT !.eq = 0]
+    /\ ses' = [sym |-> TRUE, ac |-> TRUE, armed |-> TRUE, refact |-> rf, usepr |-> up, lw |-> lw]
+    /\ UNCHANGED <<lu, base>>
+    /\ Log([call |-> "sinit", refact |-> rf, usepr |-> up, lw |-> lw])
+\* p?gstrf with the options and AC of the session (AC shares A's arrays: it factors the values current NOW)
+SFactor ==
+    /\ ses.armed /\ ses.ac /\ mat.eq = 0
+    /\ IF ses.refact THEN lu.ses /\ lu.mem = ses.lw /\ (ses.usepr => lu.ok) ELSE lu.mem = "none"
+    /\ lu' = [ver |-> mat.ver, eq |-> 0, mem |-> ses.lw, ok |-> ~mat.sing, sym |-> FALSE, ses |-> TRUE]
+    /\ ses' = [ses EXCEPT !.armed = FALSE]
+    /\ UNCHANGED <<mat, base>>
+    /\ Log([call |-> "sfactor"])
+\* ?gstrs / ?gscon with whatever usable factors of the current, unscaled values exist (from a driver or from the session)
+SSolve(t) ==
+    /\ mat.present /\ mat.stype = "NC" /\ lu.ok /\ lu.ver = mat.ver /\ lu.eq = 0 /\ mat.eq = 0
+    /\ UNCHANGED <<mat, lu, base, ses>>
+    /\ Log([call |-> "ssolve", trans |-> t])
+SCon(nrm) ==
+    /\ mat.present /\ mat.stype = "NC" /\ lu.ok /\ lu.ver = mat.ver /\ lu.eq = 0 /\ mat.eq = 0
+    /\ UNCHANGED <<mat, lu, base, ses>>
+    /\ Log([call |-> "scon", norm |-> nrm])
+\* Destroy_CompCol_Permuted(&AC) between two factorizations
+SDropAC ==
+    /\ ses.ac
+    /\ ses' = [ses EXCEPT !.ac = FALSE, !.armed = FALSE]
+    /\ UNCHANGED <<mat, lu, base>>
+    /\ Log([call |-> "sdropac"])
+\* pxgstrf_finalize (the three arrays and AC), or the caller frees the three arrays when AC is gone already
+SFinal ==
+    /\ ses.sym
+    /\ ses' = NoSes
+    /\ UNCHANGED <<mat, lu, base>>
+    /\ Log([call |-> "sfinal"])
+SesBlocks == (IF ses.sym THEN 3 ELSE 0) + (IF ses.ac THEN 3 ELSE 0)   \* library allocations a session holds for the caller
+
+SesNext == \/ \E rf \in BOOLEAN : \E up \in BOOLEAN : \E lw \in Mems : (lw = "user" => "user" \in Alphabet) /\ SInit(rf, up, lw)
+           \/ SFactor
+           \/ \E t \in Transs : (t # "N" => "trans" \in Alphabet) /\ SSolve(t)
+           \/ ("scon" \in Alphabet /\ \E nm \in {"1", "I"} : SCon(nm))
+           \/ SDropAC
+           \/ SFinal
 Next == /\ Len(hist) < MaxLen
-        /\ \/ ("mat" \in Alphabet /\ \E st \in {"NC", "NR"} : \E sg \in (IF "singular" \in Alphabet THEN BOOLEAN ELSE {FALSE}) : Mat(st, sg) /\ UNCHANGED base)
+        /\ \/ ("mat" \in Alphabet /\ ("onemat" \in Alphabet => ~mat.present) /\ \E st \in {"NC", "NR"} : \E sg \in (IF "singular" \in Alphabet THEN BOOLEAN ELSE {FALSE}) : Mat(st, sg) /\ UNCHANGED base)
            \/ ("vals" \in Alphabet /\ Vals)
            \/ ("gssv" \in Alphabet /\ Gssv)
            \/ ("gssvx" \in Alphabet /\ \E f \in Facts : \E rf \in BOOLEAN : \E up \in BOOLEAN : \E t \in Transs :
@@ -90,6 +145,7 @@ Next == /\ Len(hist) < MaxLen
                       /\ (t # "N" => "trans" \in Alphabet)
                       /\ Gssvx(f, rf, up, t, lw))
            \/ ("destroy" \in Alphabet /\ Destroy)
+           \/ ("ses" \in Alphabet /\ SesNext)
 Spec == Init /\ [][Next]_vars
 
 \* every complete history (length MaxLen, or shorter and dead) is printed once
@@ -153,5 +209,35 @@ ObsGssvx(r, n, c) ==
                            /\ r.rclo <= 1100 /\ r.rchi <= 1100            \* C12: sandwich
                            /\ r.rpgdev <= 1000)                           \* C12: pivot growth
 
-ObsDestroy(r) == r.live1 = base                               \* C17: destroying the outputs returns the heap
+ObsDestroy(r) == r.live1 = base + SesBlocks                   \* C17: destroying the outputs returns the heap (an open session keeps its 3 + 3 blocks)
+
+\* ---- the computational routines ----
+ObsSInit(r, rf) ==
+    /\ NoXerbla(r) /\ r.Aunch = 1                            \* C10: A's values and row indices shared, not altered
+    /\ r.permc = 1 /\ r.acok = 1                             \* C10: bijection; column Pc(j) of AC is column j of A
+    /\ r.etpost = 1 /\ r.postonly = 1                        \* C10: postordered etree; the caller's ordering changes only by a postorder (not at all for refact)
+    /\ (rf => r.permcunch = 1)
+    /\ r.permrunch = 1 /\ r.optsok = 1
+    /\ r.dlive = (IF rf THEN 3 ELSE 6)                        \* C17: exactly AC (3 blocks) and, first time, the three option arrays
+ObsSFactor(r, n) ==
+    /\ NoXerbla(r) /\ ThreadsOK(r) /\ r.Aunch = 1 /\ r.permcunch = 1 /\ r.guard = 1
+    /\ (ses.refact => r.live1 = r.live0)                      \* C08/C17: a refactorization reuses the storage
+    /\ IF mat.sing
+       THEN r.info >= 1 /\ r.info <= n                        \* C06
+       ELSE /\ r.info = 0 /\ r.permr = 1 /\ r.extract = 0
+            /\ Ratio(r.recon)                                 \* C02/C08: factors of the CURRENT values
+            /\ r.maxl >= 0 /\ r.maxl * r.u1000 <= 1001000    \* C02: |l_ij| <= 1/u
+            /\ (ses.lw = "user" => r.inside = 1)              \* C14
+            \* C08: pivot reuse keeps the previous row order wherever it still meets the threshold: unchanged values, first factored
+            \* with partial pivoting, re-factored with u <= 1/2 -> every old pivot passes, perm_r is the old one and the request stands
+            /\ (ses.usepr /\ lu.ok /\ lu.ver = mat.ver /\ r.u1000 <= 500 => r.permrunch = 1 /\ r.useprkept = 1)
+ObsSSolve(r) ==
+    /\ NoXerbla(r) /\ ThreadsOK(r) /\ r.info = 0
+    /\ r.Aunch = 1 /\ r.Lunch = 1 /\ r.permunch = 1 /\ r.padok = 1 /\ r.live1 = r.live0
+    /\ (r.nrhs > 0 => Ratio(r.resid))                         \* C01-style backward-stable residual for op(A) X = B
+ObsSCon(r) ==
+    /\ NoXerbla(r) /\ r.info = 0 /\ r.Lunch = 1 /\ r.live1 = r.live0
+    /\ (r.rclo # -2 => r.rclo >= 0 /\ r.rclo <= 1100 /\ r.rchi >= 0 /\ r.rchi <= 1100)   \* C12 sandwich in the requested norm
+ObsSDrop(r)  == r.dlive = -3
+ObsSFinal(r) == r.dlive = -SesBlocks
 =============================================================================
